@@ -5,8 +5,7 @@ GROUP = dict(
     driver='driver.cpp',
     spec='spec.h',
     aliases=[('babylon::CompactEnumerableThreadLocal<babylon::internal::ConcurrentComparer<long, -1>::Slot, 64, -1>', 'MaxStore'),
-             (MAXER, 'Maxer'), ('(lambda at /repo/src/babylon/concurrent/counter.h:159:23)', 'MaxLambda'),
-             ('value()::(anonymous class at /repo/src/babylon/concurrent/counter.h:159:23)', 'lambda')],
+             (MAXER, 'Maxer')],
     type_aliases={'Slot': MAXER + '::Slot'},   # the substituted template argument is printed as written
     opaque_by_value=['babylon::CompactEnumerableThreadLocal<babylon::internal::ConcurrentComparer<long, -1>::Slot, 64, -1>',
                      'babylon::CompactEnumerableThreadLocal<babylon::internal::ConcurrentComparer<long, false>::Slot, 64, -1>'],
@@ -14,7 +13,7 @@ GROUP = dict(
     # one instantiation per lambda location: clang prints the closure type of both instantiations as the same
     # "(lambda at counter.h:159:23)", so the miner (symmetric code, Max=false) is not lowered in this group
     roots=[{'name': MAXER + '::value', 'sig': 'long &'}, MAXER + '::operator<<',
-           {'lambda_in': MAXER + '::value', 'file': 'counter.h', 'line': 159}],
+           {'lambda_in': MAXER + '::value', 'ordinal': 1}],
     reviewed_compiler_conditionals=[],
     assumptions=['CompactEnumerableThreadLocal::for_each presents every slot ever used exactly once (abstract stub that calls the real lowered lambda); local() returns the private slot of the calling thread (stub)',
                  'quiescent reads: no sample is recorded while value() scans', 'the miner (Max=false) is the same template code and is not lowered separately'],
